@@ -8,6 +8,16 @@ ROOT = os.path.dirname(os.path.dirname(os.path.abspath(__file__)))
 props = [json.loads(l) for l in open(os.path.join(ROOT, "properties.jsonl"))]
 
 CHECKS = {
+    "C20": dict(
+        text="Backend.tla models a back end as an exact map with the directory back end's temporary-file + atomic-publish "
+             "write; TLC shows ListedComplete in every state incl. crashes inside a write (and that the naive design violates "
+             "it). Every call of seeded operation sequences on LocalBackend, OpenDAL(fs) and OpenDAL(memory) is an event "
+             "validated by BackendTrace.tla against the map (full / ranged reads, listings with sizes, stray files ignored); "
+             "a cfg-gated hook observes the pre-publish point and interrupts writes there.",
+        note="Interruption = process stop at the hook point between sync_all and rename; fsync/rename durability of the OS "
+             "is trusted. Out-of-range reads and removal of absent files are not constrained by the property.",
+        technique="TLC map/publish model + TLC trace validation of real back-end call logs incl. pre-publish hook observations",
+        design="4/C20"),
     "C17": dict(
         text="Index.tla defines the allowed answers (Answers / Listed / Total / Retains per index mode). MCIndex.tla "
              "enumerates every collection of <= 2 (quick) / 3 (thorough) pack listings with duplicates, both blob types, "
